@@ -194,6 +194,29 @@ the target and of every module of the graph, plus one. -/
 def fuelBound (g : Graph ν ω) (target : List (Imp ν)) : Nat :=
   target.length + (g.map (fun m => m.imports.length)).sum + 1
 
+/-! ### `is_in_stdlib` (rattr/module_locator/util.py): a verdict of isort's `place_module`
+
+`return place_module(name) in (sections.STDLIB, sections.FUTURE)` — isort places `__future__` in its
+own FUTURE section; it is a stdlib module all the same (fix 0d0bd4b; before it the comparison was
+with STDLIB only and `from __future__ import annotations` had `__future__.py` analysed at levels 1
+and 2). `is_in_pip` does not consult isort (Tie A). -/
+
+/-- `isort.sections`: what `place_module` can return (Tie A: `Generated.C12.isortSections`). -/
+inductive Section where
+  | future | stdlib | thirdparty | firstparty | localfolder
+  | other        -- a section this model does not know (a newer isort): never stdlib here, Tie A breaks
+  deriving Repr, DecidableEq
+
+def Section.ofString (s : String) : Section :=
+  if s = "FUTURE" then .future else if s = "STDLIB" then .stdlib else if s = "THIRDPARTY" then .thirdparty
+  else if s = "FIRSTPARTY" then .firstparty else if s = "LOCALFOLDER" then .localfolder else .other
+
+/-- `is_in_stdlib(name)` as a function of `place_module(name)`. -/
+def isInStdlib : Section → Bool
+  | .stdlib => true
+  | .future => true
+  | _ => false
+
 /-! ### Where an origin comes from: `find_module_in_path` (rattr/module_locator/_locate.py)
 
 `install_location = python_path.resolve()`, then `install_location /= part` for every part of the
